@@ -390,6 +390,23 @@ theorem C02_derived_calls_chain {s : Schema} {n : String} {c : List Entity} (h :
     (regenerated from ordered_attrs.cc; before fix C02-8 it took the first attribute named `x`, and this does not elaborate). -/
 theorem C02_redecl_search_uses_creator : redeclSearchUsesCreator = true := rfl
 
+/-- the generated `MakeRedefined( a, nm, declarer )` names the entity that declares the redeclared attribute (regenerated from
+    classes_entity.c; before fix C02-9 the call had no owner and wired the first attribute of that name) -/
+theorem C02_redefined_search_uses_declarer : redefinedSearchUsesDeclarer = true := rfl
+
+/-- two supertypes that both have an attribute `x`, `w` redeclares `SELF\q.x` explicitly: `q.x` — not `p.x`, the first attribute
+    named `x` — is wired to the redefining attribute.  Confirmed on the real code (corpus f8). -/
+theorem C02_flags_redefined_right_supertype :
+    instanceFlags
+      { name := "f8", entities := [
+          { name := "p", attrs := [{ name := "x", type := .base .integer }] },
+          { name := "q", attrs := [{ name := "x", type := .base .real }, { name := "y", type := .base .string }] },
+          { name := "u", supers := ["p", "q"], attrs := [{ name := "z", type := .base .integer }] },
+          { name := "w", supers := ["u"], attrs := [{ name := "x", redecl := some "q", type := .base .real }] }] } "w"
+      = some [(⟨"p", "x", .E⟩, false, false), (⟨"q", "x", .E⟩, false, true), (⟨"q", "y", .E⟩, false, false),
+              (⟨"u", "z", .E⟩, false, false), (⟨"w", "q.x", .R⟩, false, false)] := by
+  decide
+
 /-- **Closed form of the `MakeDerived` call list for ANY supertype graph** (several supertypes, shared ancestors, any depth):
     `populateAttrList` with its search offsets and `dedupList` come down to a recursion over the supertype lists on attribute
     names, `callInfo`: the FIRST supertype in SUBTYPE OF order that knows the name says who created the attribute and whether it
@@ -472,7 +489,7 @@ theorem C02_flags_derive_chain_partial {s : Schema} {n : String} {c : List Entit
     Partial: single-inheritance ancestries (with several supertypes a part's `MakeRedefined` marks the part's own copy). -/
 theorem C02_flags_redef_chain_partial {s : Schema} {n : String} {c : List Entity} (h : IsChain s n c)
     (hf : c.length ≤ fuelOf s) (hk : KeysNodup c) :
-    (instanceFlags s n).map (fun l => l.map (fun t => (t.1, t.2.2))) = some (redefSpec c) := by
+    (instanceFlags s n).map (fun l => l.map (fun t => (t.1, t.2.2))) = some (redefSpec (redefOwner s) c) := by
   obtain ⟨h1, h2, _⟩ := chain_redef h (fuelOf s) hf hk
   unfold instanceFlags
   have hkey := C02_push_compares_descriptor
@@ -486,14 +503,15 @@ theorem C02_flags_redef_chain_partial {s : Schema} {n : String} {c : List Entity
 
 /-- A `_redefAttr` flag never appears out of nothing: every flagged attribute is registered under the name that some explicit
     redeclaration on the chain redeclares. -/
-theorem C02_flags_redef_sound (c : List Entity) (q : SA × Bool) (hq : q ∈ redefSpec c) (ht : q.2 = true) :
-    ∃ p ∈ flatExplicit c, p.2.redecl.isSome = true ∧ p.2.name = q.1.name :=
-  redefSpec_sound (flatExplicit c) [] (by intro q hq; simp at hq) (flatExplicit c) (fun _ hp => hp) q hq ht
+theorem C02_flags_redef_sound (ro : Attr → Option String) (c : List Entity) (q : SA × Bool) (hq : q ∈ redefSpec ro c)
+    (ht : q.2 = true) : ∃ p ∈ flatExplicit c, p.2.redecl.isSome = true ∧ p.2.name = q.1.name :=
+  redefSpec_sound ro (flatExplicit c) [] (by intro q hq; simp at hq) (flatExplicit c) (fun _ hp => hp) q hq ht
 
 /-- first match, not every match: two entities of one chain redeclare `SELF\a.x`; both marks land on `a.x` (the first attribute
     registered as `x`), the redefining entries `a.x` of `b` and of `c` are never marked -/
 example :
-    redefSpec [{ name := "a", attrs := [{ name := "x", type := .base .integer }] },
+    redefSpec (fun _ => none)
+              [{ name := "a", attrs := [{ name := "x", type := .base .integer }] },
                { name := "b", supers := ["a"], attrs := [{ name := "x", redecl := some "a", type := .base .integer }] },
                { name := "c", supers := ["b"], attrs := [{ name := "x", redecl := some "a", type := .base .integer }] }]
       = [(⟨"a", "x", .E⟩, true), (⟨"b", "a.x", .R⟩, false), (⟨"c", "a.x", .R⟩, false)] := by decide
@@ -562,8 +580,8 @@ theorem C02_flags_derive_principal_rule (s : Schema) (f : Nat) (n p : String) (p
     dAt (ctorNF s (f + 1) n {}) j = true ↔ dAt (ctorNF s f p {}) j = true ∨ (a.name, a.owner) ∈ derivedCalls s n := by
   have hlt := saAt_lt hj
   have hunf : ctorNF s (f + 1) n {} =
-      applyDerived (ownLoop e (ps.foldl (fun st q => (ctorWF s f q st []).1) (ctorNF s f p {})) none).1
-        (ownLoop e (ps.foldl (fun st q => (ctorWF s f q st []).1) (ctorNF s f p {})) none).1.head (derivedCalls s n) := by
+      applyDerived (ownLoop (redefOwner s) e (ps.foldl (fun st q => (ctorWF s f q st []).1) (ctorNF s f p {})) none).1
+        (ownLoop (redefOwner s) e (ps.foldl (fun st q => (ctorWF s f q st []).1) (ctorNF s f p {})) none).1.head (derivedCalls s n) := by
     rw [ctorNF_succ, hE]; simp only [hs, List.tail_cons]
   generalize hst1 : ctorNF s f p {} = st1 at hj hlt hunf ⊢
   -- the parts
@@ -585,9 +603,9 @@ theorem C02_flags_derive_principal_rule (s : Schema) (f : Nat) (n p : String) (p
   have hfl2 : flagsAt st2 j = flagsAt st1 j := by rw [← hst2]; exact hparts ps st1 hok1 (Nat.le_refl _) j hlt
   have hsa2 : saAt st2 j = some a := by rw [hext.2 j hlt]; exact hj
   -- n's own attributes
-  obtain ⟨hle3, h3⟩ := ownLoop_none_dAt e st2
+  obtain ⟨hle3, h3⟩ := ownLoop_none_dAt (redefOwner s) e st2
   have hj2 : j < st2.objs.length := Nat.lt_of_lt_of_le hlt hext.1
-  generalize hmid : (ownLoop e st2 none).1 = mid at hunf h3
+  generalize hmid : (ownLoop (redefOwner s) e st2 none).1 = mid at hunf h3
   have hdm : dAt mid j = dAt st1 j := (h3 j hj2).1.trans (dAt_of_flagsAt hfl2)
   have hsm : saAt mid j = some a := (h3 j hj2).2.trans hsa2
   -- n's MakeDerived calls, on the head
